@@ -32,6 +32,52 @@ def parseXf (tok : String) : Option Xform :=
   | _, _ => none
 def parseXfs (s : String) : Option (List Xform) := if s = "-" then some [] else (s.splitOn "/").mapM parseXf
 
+/-- an element of a derived-view op list: a coordinate transformation or a channel view -/
+inductive DOp where
+  | geo (t : Xform)
+  | chan (kth : Bool) (n : Int)      -- N<n> = nth_channel_view(., n);  K<k> = kth_channel_view<k>
+
+def parseDOp (tok : String) : Option DOp :=
+  let c := (tok.take 1).toString
+  match c, ints (((tok.drop 1).toString.splitOn ",").filter (· ≠ "")) with
+  | "N", some [n] => some (.chan false n)
+  | "K", some [n] => some (.chan true n)
+  | _, _ => (parseXf tok).map .geo
+def parseDOps (s : String) : Option (List DOp) := if s = "-" then some [] else (s.splitOn "/").mapM parseDOp
+
+/-- (number of channels, sizeof(channel)) of the homogeneous byte-addressed kinds (the ones that have channel views) -/
+def chanOf (k : String) : Option (Int × Int) :=
+  match k with
+  | "g8" => some (1, 1) | "rgb8" | "bgr8" => some (3, 1) | "rgba8" => some (4, 1) | "rgb16" => some (3, 2) | "dev5" => some (5, 1)
+  | "rgb32f" => some (3, 4) | "pl8" => some (3, 1) | "pl16c" => some (4, 2) | "pl16" => some (3, 2)
+  | _ => none
+
+/-- does a transformation turn the x-iterator into a step iterator?  (flipped_up_down_view and subimage_view keep the type) -/
+def xfSteps : Xform → Bool
+  | .flipUD => false | .sub _ _ _ _ => false | _ => true
+
+/-- what is known about a (derived) view while an op list is applied: geometry, pixel size, planarity with the offset of the last
+    plane, and the type facts the channel-view factories look at -/
+structure DV where
+  v : View
+  pix : Int
+  planar : Bool
+  plane : Int → Int
+  nplanes : Int
+  t : GilVerif.Model.C02.ChanSrc
+
+/-- apply an op list: transformations through `Model.C02.applyMem`, channel views through `Model.C02.chanViewMem` (generated
+    `make` bodies + `adjacent` predicate); channel n of a pixel is n channels further (interleaved) / in plane n (planar) -/
+def applyDOps : List DOp → DV → Option DV
+  | [], d => some d
+  | .geo tr :: rest, d => applyDOps rest { d with v := GilVerif.Model.C02.applyMem tr d.v, t := { d.t with isStep := d.t.isStep || xfSteps tr } }
+  | .chan kth n :: rest, d =>
+    if n < 0 ∨ n ≥ d.t.nch then none else
+    let addr : Int → Int := if d.planar then d.plane else fun k => k * d.t.chanSize
+    applyDOps rest { v := GilVerif.Model.C02.chanViewMem kth d.t addr n d.v, pix := d.t.chanSize, planar := false, plane := fun _ => 0, nplanes := 1,
+                     t := GilVerif.Model.C02.chanViewSrc kth d.t }
+
+
 def K : Int := 1720320
 /-- address the guard allocator returns for a request of `n` bytes (any number congruent to the real
     address modulo every alignment in use) -/
@@ -48,6 +94,9 @@ def extent (o : Org) (lastPlane : Int) (v : View) : Int × Int :=
     let lo := rest.foldl min a
     let hi := rest.foldl max a
     (lo, hi + o.mstep + (if o.planar then lastPlane else 0))
+
+def extentD (d : DV) : Int × Int :=
+  extent ⟨1, d.pix, d.planar, d.nplanes, [], 0⟩ (d.plane (d.nplanes - 1)) d.v
 
 /-- state after the constructor sequence: the image (Model.C01: `_memory`, `_allocated_bytes`, `_align_in_bytes`, `_view`, planes)
     and the number of allocations made -/
@@ -96,28 +145,51 @@ def runCtor (o : Org) (gran mode R : Int) (ctor : String) (W H A W2 H2 A2 : Int)
       (fresh o gran mode R W H A 0))
   | _ => none
 
-def showSt (o : Org) (s : St) (ts : List Xform) : String :=
+def srcOf (o : Org) (ch : Option (Int × Int)) : GilVerif.Model.C02.ChanSrc :=
+  match ch with
+  | some (n, c) => ⟨false, o.planar, n, c⟩
+  | none => ⟨false, o.planar, 0, 0⟩
+
+def showSt (o : Org) (ch : Option (Int × Int)) (s : St) (ds : List DOp) : String :=
   let v := s.img.view
   if s.img.allocated = 0 then
-    let dv := GilVerif.Model.C02.applyMemAll ts { base := 0, xs := o.mstep, ys := 0, w := v.w, h := v.h }
-    showInts [0, s.nalloc, 0, 0, 0, v.w, v.h, 0, 0] ++ " | " ++ showInts [dv.w, dv.h, 0, 0] ++ " | ok"
+    match applyDOps ds { v := { base := 0, xs := o.mstep, ys := 0, w := v.w, h := v.h }, pix := o.mstep, planar := o.planar, plane := fun _ => 0,
+                         nplanes := 1, t := srcOf o ch } with
+    | none => "bad-op"
+    | some d => showInts [0, s.nalloc, 0, 0, 0, v.w, v.h, 0, 0] ++ " | " ++ showInts [d.v.w, d.v.h, 0, 0] ++ " | ok"
   else
-    let last := s.img.plane (o.nch - 1)
-    let e := extent o last v
-    let dv := GilVerif.Model.C02.applyMemAll ts v
-    let de := extent o last dv
-    let fmod := if s.img.a > 0 then (s.img.mem + v.base / o.b2m) % s.img.a else 0
-    showInts [s.img.allocated, s.nalloc, v.base, fmod, v.ys, v.w, v.h, e.1, e.2] ++ " | " ++ showInts [dv.w, dv.h, de.1, de.2] ++ " | ok"
+    let np := if o.planar then o.nch else 1
+    let e := extent o (s.img.plane (np - 1)) v
+    match applyDOps ds { v := v, pix := o.mstep, planar := o.planar, plane := s.img.plane, nplanes := np, t := srcOf o ch } with
+    | none => "bad-op"
+    | some d =>
+      let de := extentD d
+      let fmod := if s.img.a > 0 then (s.img.mem + v.base / o.b2m) % s.img.a else 0
+      showInts [s.img.allocated, s.nalloc, v.base, fmod, v.ys, v.w, v.h, e.1, e.2] ++ " | " ++ showInts [d.v.w, d.v.h, de.1, de.2] ++ " | ok"
 
 def model (line : String) : String :=
   match words line with
   | "img" :: k :: W :: H :: A :: mode :: R :: ctor :: W2 :: H2 :: A2 :: xf :: rest =>
-    match orgOf k, ints [W, H, A, mode, R, W2, H2, A2], parseXfs xf, (match rest with | [] => some [] | [cs] => parseCalls cs | _ => none) with
+    match orgOf k, ints [W, H, A, mode, R, W2, H2, A2], parseDOps xf, (match rest with | [] => some [] | [cs] => parseCalls cs | _ => none) with
     | some o, some [W, H, A, mode, R, W2, H2, A2], some ts, some more =>
       match runCtor o (granOf k) mode R ctor W H A W2 H2 A2 more with
-      | some s => showSt o s ts
+      | some s => showSt o (chanOf k) s ts
       | none => "bad-op"
     | _, _, _, _ => "bad-op"
+  | ["pbuf", k, W, H, PAD, _mode, xf] =>     -- planar_rgb_view over one caller buffer: planes H*row apart
+    match chanOf k, ints [W, H, PAD], parseDOps xf with
+    | some (_, c), some [W, H, PAD], some ds =>
+      let row := W * c + PAD
+      if row * H = 0 then showInts [row, 0, 0] ++ " | " ++ showInts [0, 0, 0, 0] ++ " | ok" else
+      let d0 : DV := { v := { base := 0, xs := c, ys := row, w := W, h := H }, pix := c, planar := true, plane := fun k => k * (row * H), nplanes := 3,
+                       t := ⟨false, true, 3, c⟩ }
+      match applyDOps ds d0 with
+      | none => "bad-op"
+      | some d =>
+        let e := extentD d0
+        let de := extentD d
+        showInts [row, e.1, e.2] ++ " | " ++ showInts [d.v.w, d.v.h, de.1, de.2] ++ " | ok"
+    | _, _, _ => "bad-op"
   | ["buf", k, W, H, PAD, _mode] =>
     match orgOf k, ints [W, H, PAD] with
     | some o, some [W, H, PAD] =>
@@ -153,6 +225,16 @@ def judge (op obs : String) : String :=
       | some [n, _, _, _, _, _, _, lo, hi], some [_, _, dlo, dhi] =>
         if !(inside o n lo hi) then fail "a pixel of the image lies outside the buffer obtained from the allocator"
         else if !(inside o n dlo dhi) then fail "a pixel of the derived view lies outside the buffer obtained from the allocator"
+        else "ok"
+      | _, _ => fail ("not-a-value:" ++ obs.take 40)
+    | _, _ => fail ("not-a-value:" ++ obs.take 40)
+  | ["pbuf", _, _, H, _, _, _] =>
+    match H.toInt?, splitGroups ws with
+    | some H, [g1, g2, ["ok"]] =>
+      match ints g1, ints g2 with
+      | some [row, lo, hi], some [_, _, dlo, dhi] =>
+        if !(0 ≤ lo ∧ hi ≤ 3 * H * row) then fail "a pixel lies outside the caller's planar buffer of 3 x height x row-bytes"
+        else if !(0 ≤ dlo ∧ dhi ≤ 3 * H * row) then fail "a pixel of the derived view lies outside the caller's planar buffer of 3 x height x row-bytes"
         else "ok"
       | _, _ => fail ("not-a-value:" ++ obs.take 40)
     | _, _ => fail ("not-a-value:" ++ obs.take 40)
